@@ -17,6 +17,13 @@ SUITES = {
     "set_zst":     ("random", "zst",   ["--set"],             "debug",   (6, 30),   (150, 150)),
     "limits_dbg":  ("random", "plain", ["--limits"],          "debug",   (12, 120), (200, 200)),
     "limits_rel":  ("random", "plain", ["--limits"],          "release", (12, 120), (200, 200)),
+    # crash-point enumeration: runs = number of sampled (state, operation) pairs
+    "fault_heap":  ("faults", "heap",  [],                    "debug",   (24, 240), (0, 0)),
+    "fault_heap_rel": ("faults", "heap", [],                  "release", (24, 240), (0, 0)),
+    "fault_plain": ("faults", "plain", [],                    "release", (18, 120), (0, 0)),
+    "fault_two":   ("faults", "heap",  ["--two"],             "debug",   (18, 180), (0, 0)),
+    "fault_set":   ("faults", "heap",  ["--set", "--two"],    "debug",   (18, 180), (0, 0)),
+    "fault_zst":   ("faults", "zst",   [],                    "debug",   (9, 45),   (0, 0)),
     "defects":     ("scripts", None,   [],                    "both",    (1, 1),    (0, 0)),
 }
 
@@ -49,6 +56,7 @@ PROPS = {
     "C04": dict(suites=["core_plain", "rel_plain", "limits_dbg", "limits_rel", "two_heap", "defects"], mc=["Small", "CountR8"]),
     "C05": dict(suites=["core_heap", "rel_heap", "core_zst", "set_heap", "set_zst", "two_heap", "defects"], mc=["Small", "CountR8"]),
     "C06": dict(suites=["core_heap", "rel_heap", "two_heap", "set_heap", "set_two", "defects"], mc=["Small"]),
+    "C07": dict(suites=["fault_heap", "fault_heap_rel", "fault_plain", "fault_two", "fault_set", "fault_zst", "defects"], mc=[]),
     "C08": dict(suites=["core_heap", "rel_heap", "core_plain", "set_heap", "core_zst"], mc=["Small"]),
     "C09": dict(suites=["core_heap", "rel_heap", "core_plain", "set_heap", "set_zst"], mc=["Small"]),
     "C10": dict(suites=["limits_dbg", "limits_rel", "core_plain", "rel_plain", "set_heap", "defects"], mc=["CountR8"]),
@@ -58,3 +66,4 @@ PROPS = {
 }
 
 LEVEL = {p: "model_checking" for p in PROPS}
+LEVEL["C07"] = "fault_enumeration"
